@@ -297,6 +297,11 @@ def rel_C05(suite):
     return group_relation(suite, 'memo', 'memo variants disagree', False)
 
 
+def rel_C12(suite):
+    # other spellings of the directives of one grammar: same parser (results and reported errors)
+    return group_relation(suite, 'spell', 'directive spellings of one grammar disagree', True)
+
+
 def rel_C13(suite):
     r = group_relation(suite, 'incl', 'include vs inlined body disagree', True)
     return r
@@ -365,11 +370,56 @@ def rel_C06(suite):
 
 
 # ------------------------------------------------------------------ C07
+def usual_shape_expectation(c, text):
+    """independent reading of `E = l:*E op r:Num | … | b:Num` (tag lrusual): b x* greedy, nested to the left.
+    Returns None when the oracle does not apply, else ('ERR',) or ('OK', consumed bytes, number of extensions)."""
+    g = c['text']
+    m = re.search(r'^E = (.*);$', g, re.M)
+    if not m:
+        return None
+    alts = [a.strip() for a in m.group(1).split(' | ')]
+    ops = []
+    for a in alts[:-1]:
+        mm = re.match(r"^\w+:\*E '(.)' \w+:Num$", a)
+        if not mm:
+            return None
+        ops.append(mm.group(1))
+    if not re.match(r'^\w+:Num$', alts[-1]) or not ops:
+        return None
+    head = g.split('E = ')[0].split('\n\n')[-1]
+    noskip = '@no_skip_ws' in head
+    num_head = g.split('Num = ')[0].split('\n\n')[-1]
+    if ('@no_skip_ws' in num_head) != noskip or "Num = { '0'..'9' }+;" not in g:
+        return None
+    ws = '' if noskip else '[ \\t\\n\\r]*'
+    num = '[0-9]+' if noskip else '(?:[ \\t\\n\\r]*[0-9])+'
+    if not noskip and text[:1] in (' ', '\t', '\n', '\r') and 'known_K4' not in c['tags']:
+        return None      # the class of known finding K4 (leading blanks before a @leftrec rule): replayed on its pinned case only
+    b = re.match(ws + num if noskip else num, text)
+    if not b:
+        return ('ERR',)
+    pos, n = b.end(), 0
+    step = re.compile(ws + '(?:' + '|'.join(re.escape(o) for o in ops) + ')' + (ws if noskip else '') + num)
+    while True:
+        s = step.match(text, pos)
+        if not s or s.end() <= pos:
+            break
+        pos, n = s.end(), n + 1
+    return ('OK', len(text[:pos].encode()), n)
+
+
 def rel_C07(suite):
     def sel(m, im):
         return (m[0], m[1], m[2]), (im[0], im[1], im[2])
 
     def prop(c, rule, text, m, im, flags):
+        if 'lrusual' in c['tags'] and rule == 'E' and im[0] in ('OK', 'ERR'):
+            exp = usual_shape_expectation(c, text)
+            if exp is not None:
+                field = re.search(r'(\w+):\*E', c['text']).group(1)
+                got = ('ERR',) if im[0] == 'ERR' else ('OK', int(im[2]), im[1].count(field + ': Some('))
+                if got != exp:
+                    return ('usual shape `A = A x | b`: expected b x* greedy nested to the left %s, implementation %s' % (exp, got))
         if m[0] == 'FUEL':
             return None
         if (m[0], m[1] if m[0] == 'OK' else '', m[2] if m[0] == 'OK' else '') != (im[0], im[1] if im[0] == 'OK' else '', im[2] if im[0] == 'OK' else ''):
@@ -410,5 +460,5 @@ def rel_C20(suite):
 
 RELATIONS = {
     'C01': rel_C01, 'C02': rel_C02, 'C04': rel_C04, 'C05': rel_C05, 'C06': rel_C06, 'C07': rel_C07, 'C08': rel_C08,
-    'C09': rel_C09, 'C10': rel_C10, 'C13': rel_C13, 'C14': rel_C14, 'C19': rel_C19, 'C20': rel_C20,
+    'C09': rel_C09, 'C10': rel_C10, 'C12s': rel_C12, 'C13': rel_C13, 'C14': rel_C14, 'C19': rel_C19, 'C20': rel_C20,
 }
